@@ -401,11 +401,10 @@ func (b *BlockList) Exists(key string) bool {
 	// covers subdomains only.
 	offset := 0
 	for {
-		idx := strings.IndexByte(key[offset:], '.')
-		if idx == -1 {
+		offset = nextLabel(key, offset) // Move past the dot
+		if offset == -1 {
 			break
 		}
-		offset += idx + 1 // Move past the dot
 
 		if offset < len(key) {
 			suffix := key[offset:]
@@ -429,15 +428,32 @@ func matchHierarchy(name string, m map[string]bool) bool {
 	}
 	offset := 0
 	for {
-		idx := strings.IndexByte(name[offset:], '.')
-		if idx == -1 {
+		offset = nextLabel(name, offset)
+		if offset == -1 {
 			return false
 		}
-		offset += idx + 1
 		if offset < len(name) && m[name[offset:]] {
 			return true
 		}
 	}
+}
+
+// nextLabel returns the offset of the label that follows the one starting at
+// offset in the presentation-format name, or -1 when there is none. Only an
+// unescaped dot separates labels: in "x\.example.com." the first label is
+// "x.example" and the name's only parent is "com.", so a listed
+// "example.com." must not match it. A backslash escapes the octet after it
+// ("\." , "\\", or the first digit of "\DDD", whose digits are never dots).
+func nextLabel(name string, offset int) int {
+	for i := offset; i < len(name); i++ {
+		switch name[i] {
+		case '\\':
+			i++
+		case '.':
+			return i + 1
+		}
+	}
+	return -1
 }
 
 // (*BlockList).Length length returns the caches length.
